@@ -177,6 +177,9 @@ def schema_edits(spec, parsers=False, rich=True):
             eds.append(["frame", "checks", [{"k": "ne", "a": [2]}]])
         if spec.get("index") is None:
             eds.append(["addindex", dict(S.comp(dtype="int64"), kind="single")])
+            # an index schema whose check fails for the LAST row of the default index (row-level index errors interact with
+            # row-level column errors, e.g. under drop_invalid_rows)
+            eds.append(["addindex", dict(S.comp(dtype="int64", checks=[{"k": "le", "a": [1]}]), kind="single")])
             if rich:
                 eds.append(["addindex", dict(S.comp(dtype="int64", unique=True, checks=[{"k": "ge", "a": [1]}]), kind="single")])
                 eds.append(["addindex", dict(S.comp(dtype="str", name="idx"), kind="single")])
